@@ -10,11 +10,39 @@ use crate::props::c05::{describe_inst, fp_instance, sorted_state};
 use crate::tape::Tape;
 use ommx::v1;
 use serde_json::json;
-use std::collections::BTreeSet;
+use std::collections::{BTreeMap, BTreeSet};
 
 pub struct C10;
 
 const MULT: [usize; 7] = [5, 7, 9, 255, 256, 257, 300];
+
+/// order-insensitive views for "unchanged" clauses (list order is not part of any statement)
+fn vars_by_id(v: &[v1::DecisionVariable]) -> BTreeMap<u64, Vec<v1::DecisionVariable>> {
+    let mut m: BTreeMap<u64, Vec<v1::DecisionVariable>> = BTreeMap::new();
+    for x in v {
+        m.entry(x.id).or_default().push(x.clone());
+    }
+    m
+}
+fn removed_by_id(v: &[v1::RemovedConstraint]) -> BTreeMap<u64, Vec<v1::RemovedConstraint>> {
+    let mut m: BTreeMap<u64, Vec<v1::RemovedConstraint>> = BTreeMap::new();
+    for x in v {
+        m.entry(x.constraint.as_ref().map(|c| c.id).unwrap_or(u64::MAX)).or_default().push(x.clone());
+    }
+    m
+}
+fn deps_as_polys(m: &std::collections::HashMap<u64, v1::Function>) -> BTreeMap<u64, Poly> {
+    m.iter().map(|(k, f)| (*k, Poly::from_function(f))).collect()
+}
+fn removed_math(v: &[v1::RemovedConstraint]) -> BTreeMap<u64, Vec<(i32, Poly)>> {
+    let mut m: BTreeMap<u64, Vec<(i32, Poly)>> = BTreeMap::new();
+    for x in v {
+        if let Some(c) = &x.constraint {
+            m.entry(c.id).or_default().push((c.equality, Poly::from_opt_function(&c.function)));
+        }
+    }
+    m
+}
 
 impl Property for C10 {
     fn id(&self) -> &'static str {
@@ -105,13 +133,21 @@ impl Property for C10 {
             if back.constraints.len() != inst.constraints.len() {
                 return fail("C10/roundtrip/constraint-count", "constraint count changed".to_string());
             }
-            for (a, b) in inst.constraints.iter().zip(back.constraints.iter()) {
-                if a.id != b.id || a.equality != b.equality {
+            for a in inst.constraints.iter() {
+                let Some(b) = back.constraints.iter().find(|b| b.id == a.id) else {
+                    return fail("C10/roundtrip/constraint-id-or-equality", format!("constraint {} is gone after the round trip", a.id));
+                };
+                if a.equality != b.equality {
                     return fail("C10/roundtrip/constraint-id-or-equality", format!("constraint {} changed id/equality", a.id));
                 }
                 check_partial("C10/roundtrip/constraint", &a.function.clone().unwrap_or_else(|| crate::mk::fconst(0.0)), &b.function.clone().unwrap_or_else(|| crate::mk::fconst(0.0)), &empty, regime)?;
             }
-            if back.decision_variables != inst.decision_variables || back.sense != inst.sense || back.removed_constraints != inst.removed_constraints || back.decision_variable_dependency != inst.decision_variable_dependency || back.constraint_hints != inst.constraint_hints {
+            // "the same mathematical problem": variables, sense, removed constraints and definitions of dependent variables
+            // as mathematical objects (any list order, any representation of a function); hints are recorded only
+            if back.constraint_hints != inst.constraint_hints {
+                ctx.label("roundtrip-hints-differ");
+            }
+            if vars_by_id(&back.decision_variables) != vars_by_id(&inst.decision_variables) || back.sense != inst.sense || removed_math(&back.removed_constraints) != removed_math(&inst.removed_constraints) || deps_as_polys(&back.decision_variable_dependency) != deps_as_polys(&inst.decision_variable_dependency) {
                 return fail("C10/roundtrip/other-fields", format!("variables/sense/removed/dependencies/hints changed in the round trip of {}", describe_inst(&inst)));
             }
             return Ok(());
@@ -286,36 +322,50 @@ impl Property for C10 {
         if out.constraints.len() != pi.constraints.len() {
             return fail("C10/constraint-count", ctxmsg("number of constraints changed".into()));
         }
-        for (a, b) in pi.constraints.iter().zip(out.constraints.iter()) {
+        for a in pi.constraints.iter() {
+            // "constraint IDs unchanged": matched by id (also the equality kind, without which the constraint is another
+            // one); names and other metadata are not in the statement
+            let Some(b) = out.constraints.iter().find(|b| b.id == a.id) else {
+                return fail("C10/constraint-metadata", ctxmsg(format!("constraint {} is not in the result", a.id)));
+            };
+            if a.equality != b.equality {
+                return fail("C10/constraint-metadata", ctxmsg(format!("constraint {} changed its equality kind", a.id)));
+            }
             let mut b2 = b.clone();
             b2.function = a.function.clone();
             if &b2 != a {
-                return fail("C10/constraint-metadata", ctxmsg(format!("constraint {} changed beyond its function", a.id)));
+                ctx.label("constraint-metadata-differs");
             }
             check_partial("C10/constraint", &a.function.clone().unwrap_or_else(|| crate::mk::fconst(0.0)), &b.function.clone().unwrap_or_else(|| crate::mk::fconst(0.0)), &pstate, regime).map_err(|mut f| {
                 f.message = ctxmsg(f.message);
                 f
             })?;
         }
-        if out.decision_variables != pi.decision_variables {
+        if vars_by_id(&out.decision_variables) != vars_by_id(&pi.decision_variables) {
             return fail("C10/variables-changed", ctxmsg("decision variables changed".into()));
         }
         if out.sense != pi.sense {
             return fail("C10/sense-changed", ctxmsg("sense changed".into()));
         }
-        if out.removed_constraints != pi.removed_constraints {
+        if removed_by_id(&out.removed_constraints) != removed_by_id(&pi.removed_constraints) {
             return fail("C10/removed-constraints-changed", ctxmsg("removed constraints changed".into()));
         }
         if out.constraint_hints != pi.constraint_hints {
             return fail("C10/hints-changed", ctxmsg("hints changed".into()));
         }
-        if out.decision_variable_dependency != pi.decision_variable_dependency {
+        // the definitions of dependent variables are not in the statement's list; they do not mention parameters here, so
+        // they must at least stay the same functions (any representation)
+        if deps_as_polys(&out.decision_variable_dependency) != deps_as_polys(&pi.decision_variable_dependency) {
             return fail("C10/dependencies-changed", ctxmsg("dependencies changed".into()));
         }
         if out.description != pi.description {
-            return fail("C10/description-changed", ctxmsg("description changed".into()));
+            ctx.label("description-differs");
         }
-        if out.parameters.as_ref() != Some(&params) {
+        // "the supplied values recorded on the result": the value of every declared parameter, and nothing that was not supplied
+        let rec: BTreeMap<u64, u64> = out.parameters.as_ref().map(|p| p.entries.iter().map(|(k, v)| (*k, v.to_bits())).collect()).unwrap_or_default();
+        let declared_ok = pi.parameters.iter().all(|p| params.entries.get(&p.id).map(|v| rec.get(&p.id) == Some(&v.to_bits())).unwrap_or(false));
+        let nothing_else = rec.iter().all(|(k, v)| params.entries.get(k).map(|x| x.to_bits() == *v).unwrap_or(false));
+        if !declared_ok || !nothing_else {
             return fail("C10/parameters-not-recorded", ctxmsg(format!("result.parameters = {:?}", out.parameters)));
         }
         Ok(())
